@@ -18,6 +18,8 @@ type fn struct {
 	mat   func(w, h float64) M // reference matrix (w,h = reference box for percentages)
 	feats []string             // feature tags
 	core  bool                 // member of the reduced menu used for lists of three
+	// the matrix depends on the width / height of the reference box (a percentage argument)
+	pctX, pctY bool
 }
 
 type angle struct {
@@ -58,16 +60,22 @@ func cssMenu() []fn {
 	// --- translate family: <length-percentage>, percentages refer to the reference (border) box
 	lx := []length{{"10px", 10, "px"}, {"-5px", -5, "px"}, {"50%", 50, "%"}, {"1.5em", 1.5, "em"}, {"0", 0, "px"}}
 	ly := []length{{"-5px", -5, "px"}, {"20%", 20, "%"}, {"1.5em", 1.5, "em"}}
+	pct := func(px, py bool) { out[len(out)-1].pctX, out[len(out)-1].pctY = px, py }
 	for i, x := range lx {
 		x := x
+		xp := x.unit == "%"
 		add(i == 0, "translate("+x.css+")", "translate", func(w, h float64) M { return translation(x.resolve(w), 0) }, lenFeats(x)...)
+		pct(xp, false)
 		for j, y := range ly {
 			y := y
 			add((i == 2 && j == 1) || (i == 3 && j == 0), "translate("+x.css+", "+y.css+")", "translate",
 				func(w, h float64) M { return translation(x.resolve(w), y.resolve(h)) }, append(lenFeats(x, y), "translate-2args")...)
+			pct(xp, y.unit == "%")
 		}
 		add(i == 1, "translateX("+x.css+")", "translatex", func(w, h float64) M { return translation(x.resolve(w), 0) }, lenFeats(x)...)
+		pct(xp, false)
 		add(i == 2, "translateY("+x.css+")", "translatey", func(w, h float64) M { return translation(0, x.resolve(h)) }, lenFeats(x)...)
+		pct(false, xp)
 	}
 	// --- scale family
 	ns := []float64{2, -1, 0.5}
